@@ -36,14 +36,7 @@ Proof. vm_compute. reflexivity. Qed.
 (* 1. XvcConfig::new applies, after the defaults: system, user (label `global`), project, local,
       environment, command line -- each under its own guard, each reading its own file / map.
       Breaks when the code reorders, drops, adds or re-guards a source.                              *)
-Definition documented_stages : list stage :=
-  [ (FIncludeSystem, System,      RSystemFile);
-    (FIncludeUser,   Global,      RUserFile);
-    (FProjectPath,   Project,     RProjectPath);
-    (FLocalPath,     Local,       RLocalPath);
-    (FIncludeEnv,    Environment, REnvMap);
-    (FCliConfig,     CommandLine, RCliVector) ].
-
+(* documented_stages (Config/Priority.v): the six stages in the documented order, each with its guard and reader *)
 Theorem order_is_documented :
   order = documented_stages /\
   map stage_src order = [System; Global; Project; Local; Environment; CommandLine] /\
@@ -72,9 +65,7 @@ Theorem effective_highest (w : world) (p : params) (d : kvs) (c : cfg) (k : key)
    (exists l1 t l2, order = l1 ++ t :: l2 /\ snd (fst t) = s /\ defined_by w p t k = Some v /\
                     Forall (fun t' => defined_by w p t' k = None) l2)
    \/ (Forall (fun t => defined_by w p t k = None) order /\ s = Default /\ kget d k = Some v)).
-Proof.
-  intros Hd Hb. rewrite (effective_highest_lemma order w p d c k Hd Hb). apply effective_spec.
-Qed.
+Proof. exact (effective_highest_positional order w p d c k v s). Qed.
 
 (* XvcConfig::new panics only on an unparsable default document or on a -c element without '=' *)
 Theorem build_total (w : world) (p : params) (d : kvs) :
@@ -216,22 +207,13 @@ Theorem track_uses_effective_algorithm (w : world) (p : params) (d : kvs) (c : c
   effective order w p d alg_key = Some (VStr name, s) ->
   alg_of_name alg_table name = Some a -> prefix_of alg_table a = Some pre ->
   track_prefix alg_table alg_key c = Some pre.
-Proof.
-  intros Hd Hb He Ha Hp. apply (track_prefix_spec alg_table alg_key c name s a pre); [|exact Ha|exact Hp].
-  now rewrite (effective_highest_lemma order w p d c alg_key Hd Hb).
-Qed.
+Proof. exact (track_uses_effective_lemma order alg_table alg_key w p d c name s a pre). Qed.
 
 (* a value of the wrong type (a look-alike through the environment or -c) makes track fail rather
    than fall back to another source's algorithm *)
 Theorem track_fails_on_mistyped_algorithm (c : cfg) (v : value) (s : src) :
   kget c alg_key = Some (v, s) -> (forall x, v <> VStr x) -> track_prefix alg_table alg_key c = None.
 Proof. exact (track_prefix_fails_not_str alg_table alg_key c v s). Qed.
-
-Definition all_algs : list alg := [AsIs; Blake3; Blake2s; SHA2_256; SHA3_256].
-Fixpoint distinct_strs (l : list str) : bool :=
-  match l with [] => true | x :: r => negb (existsb (str_eqb x) r) && distinct_strs r end.
-Definition opt_strs (l : list (option str)) : list str :=
-  flat_map (fun o => match o with Some x => [x] | None => [] end) l.
 
 (* the regenerated algorithm table: every algorithm has a prefix, prefixes are pairwise distinct (the
    prefix directory identifies the algorithm), every listed name resolves to its row, and the default
